@@ -95,7 +95,8 @@ def skipElemsY (k : Known) (c : Ctx) (isTest : Bool) (elems : List String) (skip
 
 inductive R where            -- outcome of the real function
   | ok (b : Bool)
-  | panic                    -- Go run-time panic (index out of range on an empty tag)
+  | panic                    -- Go run-time panic
+  | err                      -- buildOk returns an error (malformed or repeated //go:build line)
   deriving Repr, DecidableEq
 
 /-- classify a non-empty word the way buildTagOk reads it -/
@@ -140,6 +141,7 @@ def optOkRaw (c : Ctx) (o : List Char) : R :=
     | [] => .ok true
     | w :: ws => match tagLitRaw c w with
       | .panic => .panic
+      | .err => .err
       | .ok false => .ok false
       | .ok true => go ws
   go (Str.splitOn ',' o)
@@ -153,9 +155,106 @@ def buildLineOkRaw (c : Ctx) (line : List Char) : R :=
       | [] => .ok false
       | o :: os => match optOkRaw c o with
         | .panic => .panic
+        | .err => .err
         | .ok true => .ok true
         | .ok false => go os
     go options
+
+/-! ### `//go:build` expressions (go/build/constraint): grammar shared by the model and the spec -/
+
+def isValidTagChar (ch : Char) : Bool :=
+  ch.isAlphanum || ch == '_' || ch == '.' || ch.toNat > 127   -- unicode letters/digits are accepted too
+
+def isValidTag (w : List Char) : Bool := !w.isEmpty && w.all isValidTagChar
+
+inductive BExpr where
+  | tag (s : String)
+  | not (e : BExpr)
+  | and (a b : BExpr)
+  | or (a b : BExpr)
+  deriving Repr, Inhabited
+
+inductive Tok where | lp | rp | andT | orT | notT | word (s : List Char) | bad
+  deriving Repr, BEq, Inhabited
+
+partial def lex (cs : List Char) (acc : List Tok) : List Tok :=
+  match cs with
+  | [] => acc.reverse
+  | ' ' :: r => lex r acc
+  | '\t' :: r => lex r acc
+  | '(' :: r => lex r (.lp :: acc)
+  | ')' :: r => lex r (.rp :: acc)
+  | '&' :: '&' :: r => lex r (.andT :: acc)
+  | '|' :: '|' :: r => lex r (.orT :: acc)
+  | '!' :: r => lex r (.notT :: acc)
+  | c :: r =>
+    if isValidTagChar c then
+      let w := (c :: r).takeWhile isValidTagChar
+      lex ((c :: r).dropWhile isValidTagChar) (.word w :: acc)
+    else (Tok.bad :: acc).reverse
+
+mutual
+  partial def parseOr (ts : List Tok) : Option (BExpr × List Tok) := do
+    let (a, r) ← parseAnd ts
+    orLoop a r
+  partial def orLoop (a : BExpr) (ts : List Tok) : Option (BExpr × List Tok) :=
+    match ts with
+    | .orT :: r => do let (b, r') ← parseAnd r; orLoop (.or a b) r'
+    | _ => some (a, ts)
+  partial def parseAnd (ts : List Tok) : Option (BExpr × List Tok) := do
+    let (a, r) ← parseNot ts
+    andLoop a r
+  partial def andLoop (a : BExpr) (ts : List Tok) : Option (BExpr × List Tok) :=
+    match ts with
+    | .andT :: r => do let (b, r') ← parseNot r; andLoop (.and a b) r'
+    | _ => some (a, ts)
+  partial def parseNot (ts : List Tok) : Option (BExpr × List Tok) :=
+    match ts with
+    | .notT :: .notT :: _ => none                        -- double negation not allowed
+    | .notT :: r => do let (a, r') ← parseNot r; some (.not a, r')
+    | .lp :: r => do
+        let (a, r') ← parseOr r
+        match r' with | .rp :: r'' => some (a, r'') | _ => none
+    | .word w :: r => some (.tag (Str.s w), r)
+    | _ => none
+end
+
+def parseGoBuild (text : List Char) : Option BExpr :=
+  match parseOr (lex text []) with
+  | some (e, []) => some e
+  | _ => none
+
+/-- is the `//` comment text a //go:build line; returns the expression text -/
+def splitGoBuild (text : List Char) : Option (List Char) :=
+  -- the raw line is TrimSpace'd first, so trailing blanks are gone; `//go:build` must be followed by space/tab or end
+  let t := Str.trimRight text
+  if !(Str.hasPrefix "go:build".toList t) then none
+  else match t.drop 8 with
+    | [] => some []
+    | ' ' :: r => some (Str.trim r)
+    | '\t' :: r => some (Str.trim r)
+    | _ => none
+
+
+/-- buildTagOk on a word of a //go:build expression (never starts with `!`) -/
+def BExpr.evalRaw (c : Ctx) : BExpr → Bool
+  | .tag s => (match tagLitRaw c s.toList with | .ok b => b | _ => false)
+  | .not e => !(e.evalRaw c)
+  | .and a b => a.evalRaw c && b.evalRaw c
+  | .or a b => a.evalRaw c || b.evalRaw c
+
+/-- structured layer: expressions over abstract tag names, as buildOk evaluates them -/
+inductive GExpr where
+  | tag (t : TagName)
+  | not (e : GExpr)
+  | and (a b : GExpr)
+  | or (a b : GExpr)
+
+def GExpr.evalY (c : Ctx) : GExpr → Bool
+  | .tag t => tagOkY c t
+  | .not e => !(e.evalY c)
+  | .and a b => a.evalY c && b.evalY c
+  | .or a b => a.evalY c || b.evalY c
 
 /-- one comment as the parser delivers it: `line = true` for `//…` (text = what follows `//`),
     `false` for `/*…*/` (text = what is between the markers) -/
@@ -202,11 +301,20 @@ def groupText (g : List Comment) : List Char :=
 
 /-- buildOk over the comment groups that precede the package clause -/
 def buildOkRaw (c : Ctx) (groups : List (List Comment)) : R :=
+  -- a //go:build line takes precedence over +build lines (fix 3)
+  let gobuilds := groups.flatten.filterMap fun cm => if cm.line then splitGoBuild cm.text else none
+  match gobuilds with
+  | _ :: _ :: _ => .err
+  | [e] => (match parseGoBuild e with
+      | some x => .ok (x.evalRaw c)
+      | none => .err)
+  | [] =>
   let lines := groups.flatMap fun g => Str.splitOn '\n' (Str.trim (groupText g))
   let rec go : List (List Char) → R
     | [] => .ok true
     | l :: ls => match buildLineOkRaw c l with
       | .panic => .panic
+      | .err => .err
       | .ok false => .ok false
       | .ok true => go ls
   go lines
